@@ -691,5 +691,136 @@ theorem register_conv_last_total (db : List PriceEntry) (txns : List Txn) (tgt :
   · rw [hlast, itemsOf_convStream]
     exact keySum_convItems _ tgt k (pairsOf txns) (pairs_scale txns hwf) (pairs_convert _ tgt txns hall)
 
+/-! ## 5. the metadata block shows the rates multiplied in (fixed lookups) -/
+
+/-- the record the metadata block shows for a source commodity -/
+def shownFor (records : List PriceRecord) (src : String) : Option PriceRecord :=
+  records.find? (fun r => r.source == src)
+
+/-- a price entry as the metadata block prints it -/
+def recordOf (tgt : String) (e : PriceEntry) : PriceRecord := ⟨some e.ns, e.base, some e.rate, tgt⟩
+
+/-- the price entry a reader reconstructs from the metadata block for a posting's commodity -/
+def shownEntry (records : List PriceRecord) (tgt : String) (p : Posting) : Option PriceEntry :=
+  match shownFor records p.comm with
+  | some ⟨some ns, src, some rate, _⟩ => some ⟨ns, src, rate, tgt⟩
+  | _ => none
+
+theorem find?_eq_mapGet {β} (k : String) : ∀ (l : List (String × β)),
+    l.find? (fun kv => kv.1 == k) = (mapGet l k).map (fun v => (k, v)) := by
+  intro l
+  induction l with
+  | nil => rfl
+  | cons a t ih =>
+    obtain ⟨k', v⟩ := a
+    simp only [List.find?_cons, mapGet]
+    by_cases h : k' = k
+    · subst h; simp
+    · have : (k' == k) = false := by simpa using h
+      simp [this, ih]
+
+theorem mapGet_sortByKey {β} (m : List (String × β)) (h : (C07.keys m).Nodup) (k : String) :
+    mapGet (sortByKey m) k = mapGet m k := by
+  have hnd : (C07.keys (sortByKey m)).Nodup := by
+    unfold C07.keys sortByKey
+    exact ((List.mergeSort_perm m _).map _).nodup_iff.mpr h
+  cases h1 : mapGet m k with
+  | some v =>
+    exact (C07.mem_iff_mapGet _ hnd k v).mp ((C07.mem_sortByKey m (k, v)).mpr ((C07.mem_iff_mapGet m h k v).mpr h1))
+  | none =>
+    cases h2 : mapGet (sortByKey m) k with
+    | none => rfl
+    | some v =>
+      have := (C07.mem_iff_mapGet m h k v).mp ((C07.mem_sortByKey m (k, v)).mp ((C07.mem_iff_mapGet _ hnd k v).mpr h2))
+      rw [h1] at this; cases this
+
+/-- the fixed cache has no binding for the empty commodity when the price file has none -/
+theorem fixedCache_empty_comm (es : List PriceEntry) (hwf : ∀ e ∈ es, e.base ≠ "") (used : List String) (tgt : String)
+    (bound : Option Int) : mapGet (fixedCache used tgt bound (loadDb es)) "" = none := by
+  by_cases hu : "" ∈ used
+  · have hspec := C07.fixedCache_spec (loadDb es) (C07.loadDb_sorted es) used tgt bound "" hu
+    cases hg : mapGet (fixedCache used tgt bound (loadDb es)) "" with
+    | none => rfl
+    | some c =>
+      simp only [C07.fixedEntry, hg, Option.map_some] at hspec
+      exact absurd hspec.2.1 (hwf _ (C07.loadDb_subset es _ hspec.1))
+  · exact C07.fixedCache_unused _ _ _ _ _ hu
+
+theorem applied_target_fixed (m : List (String × (Int × Dec))) (tgt : String) (t : Txn) (p : Posting) (e : PriceEntry)
+    (h : C07.appliedEntry (.fixed m) tgt t p = some e) : e.target = tgt := by
+  unfold C07.appliedEntry at h
+  split at h
+  · cases h
+  · simp only [C07.fixedEntry, Option.map_eq_some_iff] at h
+    obtain ⟨c, _, rfl⟩ := h
+    rfl
+
+/-- **metadata_matches_applied**: under the fixed lookups (`last-price`, `given-time`), in the price context of a
+    report (`reportCtx`, the one context the figures are converted with *and* the metadata block is printed from):
+    * for every posting of the report's transactions, the entry multiplied into it is exactly the record the
+      metadata block shows for the posting's commodity (time, source, rate, report commodity) — and no record for
+      that commodity means the posting is not converted;
+    * every record is the entry multiplied into some posting of the report; each source commodity appears once, in
+      name order.
+    Hypothesis: price entries have a non-empty base commodity (price-file grammar). -/
+theorem metadata_matches_applied (es : List PriceEntry) (hwf : ∀ e ∈ es, e.base ≠ "") (txns : List Txn)
+    (tgt : String) (lk : PriceLookup) (hlk : lk = .lastPrice ∨ ∃ g, lk = .givenTime g) :
+    (∀ (t : Txn) (p : Posting),
+      (C07.appliedEntry (rcache lk tgt (loadDb es) txns) tgt t p).map (recordOf tgt)
+        = shownFor (metadata (reportCtx lk (some tgt) (loadDb es) txns)) p.comm) ∧
+    (∀ (t : Txn) (p : Posting),
+      C07.appliedEntry (rcache lk tgt (loadDb es) txns) tgt t p
+        = shownEntry (metadata (reportCtx lk (some tgt) (loadDb es) txns)) tgt p) ∧
+    (∀ r ∈ metadata (reportCtx lk (some tgt) (loadDb es) txns), ∃ e, ∃ t ∈ txns, ∃ p ∈ t.posts,
+      C07.appliedEntry (rcache lk tgt (loadDb es) txns) tgt t p = some e ∧ r = recordOf tgt e) ∧
+    (metadata (reportCtx lk (some tgt) (loadDb es) txns)).Pairwise (fun a b => a.source < b.source) := by
+  have hmt := C07.metadata_true es hwf txns tgt lk hlk
+  obtain ⟨bound, hctx⟩ : ∃ bound, makeCtx lk txns (some tgt) (loadDb es) =
+      ⟨.fixed (fixedCache (usedCommodities txns tgt) tgt bound (loadDb es)), some tgt⟩ := by
+    rcases hlk with rfl | ⟨g, rfl⟩
+    · exact ⟨none, rfl⟩
+    · exact ⟨some g, rfl⟩
+  have h1 : ∀ (t : Txn) (p : Posting),
+      (C07.appliedEntry (rcache lk tgt (loadDb es) txns) tgt t p).map (recordOf tgt)
+        = shownFor (metadata (reportCtx lk (some tgt) (loadDb es) txns)) p.comm := by
+    intro t p
+    simp only [rcache, reportCtx, hctx]
+    generalize hm : fixedCache (usedCommodities txns tgt) tgt bound (loadDb es) = m
+    have hnd : (C07.keys m).Nodup := by rw [← hm]; exact C07.fixedCache_keys_nodup _ _ _ _
+    have hshown : ∀ src, shownFor (metadata ⟨.fixed m, some tgt⟩) src
+        = (mapGet m src).map (fun c => (⟨some c.1, src, some c.2, tgt⟩ : PriceRecord)) := by
+      intro src
+      simp only [shownFor, metadata, List.find?_map]
+      have : ((fun r : PriceRecord => r.source == src) ∘ fun kv : String × (Int × Dec) =>
+          (⟨some kv.2.1, kv.1, some kv.2.2, tgt⟩ : PriceRecord)) = (fun kv => kv.1 == src) := rfl
+      rw [this, find?_eq_mapGet, mapGet_sortByKey m hnd]
+      cases mapGet m src <;> rfl
+    rw [hshown]
+    unfold C07.appliedEntry
+    by_cases hc : p.comm = ""
+    · have : mapGet m "" = none := by rw [← hm]; exact fixedCache_empty_comm es hwf _ tgt bound
+      simp [hc, this]
+    · simp only [hc, if_false, C07.fixedEntry]
+      cases mapGet m p.comm <;> simp [recordOf]
+  refine ⟨h1, ?_, ?_, hmt.2⟩
+  · intro t p
+    have := h1 t p
+    unfold shownEntry
+    rw [← this]
+    cases ha : C07.appliedEntry (rcache lk tgt (loadDb es) txns) tgt t p with
+    | none => rfl
+    | some e =>
+      -- the entry's own target: an entry of the fixed cache is into the report commodity by construction
+      have htg : e.target = tgt := by
+        simp only [rcache, reportCtx, hctx] at ha
+        exact applied_target_fixed _ tgt t p e ha
+      cases e
+      simp only at htg
+      subst htg
+      simp [recordOf]
+  · intro r hr
+    obtain ⟨e, t, ht, p, hp, ha, hre⟩ := (hmt.1 r).mp hr
+    exact ⟨e, t, ht, p, hp, ha, hre⟩
+
 end C07b
 end Tackler
